@@ -734,6 +734,29 @@ def search(res, tier, boost=False):
         bad = curve_oracle(curve, fv, exact=(scale == 1), scale=(math.pi if scale == 'pi' else 1.0))
         for b in bad[:3]:
             res.violation('C18:%s:%s' % (b.split(':')[0], name), dict(curve=name, clause=b))
+    # 1b. integer-typed parameters (a Python int, a numpy integer, an integer array - e.g. an index used as arc length): the point
+    # is a function of the number, not of its type; the call with integers against the same call with floats
+    import numpy as _np
+    for name in SHIPPED:
+        try:
+            curve = make_real(name)
+        except AssertionError:
+            continue
+        L = float(curve.gamma_length)
+        ks = [k for k in range(0, int(math.floor(L)) + 1)]
+        for k in ks:
+            for kind, arg in (('int', int(k)), ('numpy.int64', _np.int64(k)), ('int-array', _np.array([k, max(k - 1, 0)]))):
+                try:
+                    p_i = _np.asarray(curve.eval(arg), dtype=float)
+                    p_f = _np.asarray(curve.eval(_np.asarray(arg, dtype=float) if kind == 'int-array' else float(k)), dtype=float)
+                except (AssertionError, TypeError, IndexError, ValueError):
+                    continue
+                res.count(('int-parameter', name, k, kind), True)
+                if p_i.shape != p_f.shape or not _np.allclose(p_i, p_f, rtol=0, atol=1e-12 * max(1.0, L)):
+                    res.violation('C18:integer-parameter-changes-point:%s' % name,
+                                  dict(curve=name, parameter=int(k), parameter_type=kind, point_integer_argument=p_i.tolist(),
+                                       point_float_argument=p_f.tolist()))
+                    break
     # 2. random accepted polygons
     n = (60 if tier == 'quick' else 1500) * (3 if boost else 1)
     for k in range(n):
